@@ -139,40 +139,25 @@ def require_clean(r, what):
         raise MachineryError("%s: TLC failed (rc=%s): %s\n%s" % (what, r.rc, bad[:3], r.out[-3000:]))
 
 
-_tuple_re = re.compile(r'^<<"(\w+)", (.*)>>$')
+def tagged(r, tag):
+    """Values printed with PrintT(ToJson(<<tag, a, b, ...>>)): one JSON string per line -> list of [a, b, ...]."""
+    res = []
+    for line in r.out.splitlines():
+        line = line.strip()
+        if not (line.startswith('"[') and line.endswith(']"')):
+            continue
+        try:
+            v = json.loads(json.loads(line))
+        except ValueError:
+            continue
+        if isinstance(v, list) and v and v[0] == tag:
+            res.append(v[1:])
+    return res
 
 
 def tagged_json(r, tag):
-    """Collect values printed with PrintT(<<tag, ToJson(x)>>) -> list of python objects."""
-    res = []
-    for line in r.out.splitlines():
-        line = line.strip()
-        m = _tuple_re.match(line)
-        if not m or m.group(1) != tag:
-            continue
-        body = m.group(2)
-        # body is a TLA+ string literal "...." with \" and \\ escapes
-        if body.startswith('"') and body.endswith('"'):
-            s = json.loads(body)       # TLA+ string escapes are a subset of JSON's
-            res.append(json.loads(s))
-    return res
+    return [v[0] for v in tagged(r, tag)]
 
 
 def tagged_values(r, tag):
-    """Collect simple tuples printed with PrintT(<<tag, a, b, ...>>) of ints / strings."""
-    res = []
-    for line in r.out.splitlines():
-        line = line.strip()
-        m = _tuple_re.match(line)
-        if not m or m.group(1) != tag:
-            continue
-        parts = []
-        for tok in re.findall(r'"(?:[^"\\]|\\.)*"|-?\d+|TRUE|FALSE', m.group(2)):
-            if tok.startswith('"'):
-                parts.append(json.loads(tok))
-            elif tok in ("TRUE", "FALSE"):
-                parts.append(tok == "TRUE")
-            else:
-                parts.append(int(tok))
-        res.append(parts)
-    return res
+    return tagged(r, tag)
